@@ -54,8 +54,22 @@ def run(chk):
                 gca = t.next()
                 if gca != ms:
                     chk.violation('impl-vs-oracle', 'VoronoiIntegrator::get_cell_at: presence / idx pattern %s differs from the mask (record %d, %s, mask %s)' % (gca, r.id, r.family, ms), rp, key='gca')
+            pwf = None
+            if t.peek() == 'PWF':
+                t.next()
+                pwf = parse_voronoi_tok(t)
             chk.count()
             where = '(record %d, %s, mask %s)' % (r.id, r.family, ms)
+            if pwf is not None and 'panic' not in pwf and 'panic' not in p:
+                # the same partial tessellation through VoronoiIntegrator::build(mask).with_faces(): same structure, same
+                # generator positions / safety radii (bitwise), volumes and areas up to rounding (different decomposition)
+                if impl_structure(pwf) != impl_structure(p):
+                    chk.violation('impl-vs-impl', 'partial tessellation through the integrator with stored faces has a different face / connectivity structure than build_partial %s' % where, rp, key='pwf-structure')
+                else:
+                    for i, (a, b) in enumerate(zip(pwf['cells'], p['cells'])):
+                        if (a.loc, a.sr) != (b.loc, b.sr) or a.volume is None or b.volume is None or abs(a.volume - b.volume) > tol.vol * 10:
+                            chk.violation('impl-vs-impl', 'cell %d of the partial tessellation through the integrator with stored faces differs from build_partial %s' % (i, where), rp, key='pwf-cell')
+                            break
             if any(mask) and not all(mask):
                 chk.nontriv((r.id, ms))
             chk.traces += 1
